@@ -34,3 +34,47 @@ Proof.
     apply has_suffix_iff in H. destruct H as [pre H].
     apply (proj1 (strip_suffix_none suf s)) with (pre := pre) in E. contradiction.
 Qed.
+
+(* ---- filepath.Clean / Join, strings.Split with the separator ---- *)
+Lemma clean_comps_bridge : forall p, Prims.clean_comps p = comps p.
+Proof. intros p. reflexivity. Qed.
+
+Lemma clean_joinc_bridge : forall cs, Prims.clean_joinc cs = joinc cs.
+Proof. intros cs. reflexivity. Qed.
+
+Lemma clean_step_bridge : forall r stk c, Prims.clean_step r stk c = cstep r stk c.
+Proof.
+  intros r stk c. reflexivity.
+Qed.
+
+Lemma filepath_Clean_bridge : forall p, Prims.filepath_Clean p = clean p.
+Proof. intros p. reflexivity. Qed.
+
+Lemma has_prefix_nil : forall s, Prims.strings_HasPrefix s [] = true.
+Proof. destruct s; reflexivity. Qed.
+
+Lemma split_fuel_sep : forall n s, (length s <= n)%nat -> Prims.split_fuel n s [Prims.filepath_Separator] = comps s.
+Proof.
+  induction n as [|n IH]; intros s H.
+  - destruct s; [reflexivity|cbn in H; lia].
+  - destruct s as [|a s]; [reflexivity|]. cbn [Prims.split_fuel Prims.strings_HasPrefix comps length skipn].
+    rewrite has_prefix_nil, andb_true_r. unfold Prims.filepath_Separator at 1. fold sep. rewrite N.eqb_sym.
+    cbn [length] in H. destruct (N.eqb a sep).
+    + rewrite IH by lia. reflexivity.
+    + rewrite IH by lia. destruct (comps s); reflexivity.
+Qed.
+
+Lemma strings_Split_sep : forall s, Prims.strings_Split s [Prims.filepath_Separator] = comps s.
+Proof. intros s. unfold Prims.strings_Split. apply split_fuel_sep. lia. Qed.
+
+Definition nonempty_b (e : list N) : bool := match e with [] => false | _ => true end.
+
+Lemma filepath_Join_nonempty : forall l, forallb nonempty_b l = true ->
+  Prims.filepath_Join l = match l with [] => [] | _ => clean (joinc l) end.
+Proof.
+  intros l H. unfold Prims.filepath_Join.
+  replace (filter (fun e => match e with [] => false | _ => true end) l) with l.
+  - destruct l; [reflexivity|]. rewrite filepath_Clean_bridge, clean_joinc_bridge. reflexivity.
+  - induction l as [|e l IH]; [reflexivity|]. cbn [forallb] in H. apply andb_true_iff in H. destruct H as [He Hl].
+    cbn [filter]. destruct e; [discriminate|]. rewrite <- IH by exact Hl. reflexivity.
+Qed.
